@@ -4,6 +4,8 @@ Correspondence of lean/Hgxv/Model/C06*.lean (content-level model of save.py / lo
 hypergraphx.readwrite.* and independent property oracles on the implementation."""
 import copy
 import json
+import struct
+from fractions import Fraction
 import os
 import shutil
 import signal
@@ -13,35 +15,104 @@ import hgxv
 
 RULE = ("random objects of the four container classes built by histories of add_node / add_edge / add_edges(weights) / "
         "set_weight / remove_edge / remove_node / metadata replace-set-clear calls (2-9 nodes with integer or string "
-        "labels, isolated nodes, 0-8 hyperedges, node sets repeated across times / layers, weighted and unweighted, "
-        "metadata from a pool of JSON values incl. nested lists/dicts and the reserved keys weight/time/layer, "
-        "hypergraph metadata intact / extended / replaced / cleared), each saved as .json and as .hgx into a temporary "
-        "directory, loaded back and compared by full public-API digests; generated .hgr files (comments, blank lines, "
+        "labels incl. huge / negative integers, numeric-looking, empty, very long, non-ASCII and escaped strings, "
+        "isolated nodes, 0-8 hyperedges, node sets repeated across times / layers, times up to 10**20, weighted and "
+        "unweighted; weights from one of three streams per object: small multiples of 1/4 with int / equal-valued "
+        "float twins, integers beyond 2**53 / 2**63 / 2**64 of both signs, floats that are no multiples of 1/4 "
+        "(0.1, 1/3, 1e300, 5e-324, 2.0**53 ...); metadata from a pool of JSON values incl. nested lists/dicts, huge "
+        "and fractional numbers (also nested), 1 vs 1.0 vs True, -0.0, 3000-character strings, escapes, keys that "
+        "look like numbers / are empty / long / non-ASCII, and the reserved keys weight/time/layer; hypergraph "
+        "metadata intact / extended / replaced / cleared), each saved as .json and as .hgx into a temporary "
+        "directory, loaded back and compared by full public-API digests and per-node incidence listings; then the "
+        "LOADED object and a twin of the original get the same further history (add_edge of new and existing keys, "
+        "add_node, then removals / set_weight / metadata edits), are compared again, and the mutated loaded object "
+        "is saved and loaded once more (same or other format); generated .hgr files (comments, blank lines, "
         "multiple blanks, node-weight lines, with/without weights) and HIF documents (three record kinds, shared "
         "incidence sets, nodes / edges without incidences). A case is distinct by (kind, type, digest or file text); "
         "non-trivial: an object with >= 1 isolated node, >= 2 hyperedges and non-empty metadata somewhere; a .hgr file "
         "with a comment or blank line and >= 2 hyperedges; a HIF document with a shared incidence set or an edge "
         "without incidences")
-ASSUMPTIONS = ["node labels, layer names and metadata are JSON-representable (str keys; str/int/float/bool/None/list/dict values)",
+ASSUMPTIONS = ["node labels, layer names and metadata are JSON-representable (str keys; str/int/float/bool/None/list/dict "
+               "values, finite floats, no lone surrogates); labels of one object are all int or all str",
+               "'the same weights / metadata' is read as: equal value AND equal numeric type (int stays int, float stays "
+               "float, bool stays bool, -0.0 stays -0.0) - JSON text and pickle both keep them apart and the hash of "
+               "C07 distinguishes them; integers are compared exactly (no float rounding). For UNWEIGHTED objects only "
+               "the value 1 is demanded of the weight (an unweighted temporal / multiplex object stores an accepted "
+               "weight=1.0 as given; the text format does not write weights of unweighted objects)",
+               "a loaded object is a full object: the same further history applied to it and to the original gives equal "
+               "digests again, and its per-node incident-edge listing equals the original's whenever the original's "
+               "listing agrees with its own hyperedge list",
                "hyperedges are duplicate-free node tuples; temporal hyperedges are undirected node sets",
                "objects violating the container invariants (a hyperedge naming a node that is not listed), which only "
                "arise from removal defects of C01-C04, are skipped and counted",
                ".hgr: positive integer labels, single blank in the header line, weighted files list distinct node sets",
                "HIF: network-type undirected / asc / absent, all three record lists present, distinct (edge,node) pairs",
-               "labels / layer names are mapped to their rank, metadata keys/values to pool indices before they reach the model"]
+               "labels / layer names are mapped to their rank, metadata keys/values to pool indices before they reach the "
+               "model; weights reach the model as exact integers 4*w (any magnitude); float weights that are no "
+               "multiple of 1/4 as injective opaque codes (the model stores and compares weights on the save/load "
+               "path; histories in which such weights add up are compared with the twin object only)"]
 TRUSTED = ["json.dump/json.load and pickle.dump/pickle.load are faithful on JSON-representable values (tuples come back as lists)",
            "str.strip / str.split / int of the .hgr tokeniser (the harness tokenises the same text for the model)",
-           "float weights k/4 are exact in binary64 and in their JSON text"]
+           "float weights k/4 of small magnitude add exactly in binary64; Python int arithmetic is exact"]
 BUDGET_S = {"quick": 50, "thorough": 800}
 
 TYPES = ["H", "D", "T", "M"]
 TNAME = {"H": "Hypergraph", "D": "DirectedHypergraph", "T": "TemporalHypergraph", "M": "MultiplexHypergraph"}
-UKEYS = ["weighted", "type", "a", "b", "name", "x y", "kü", "class"]
+UKEYS = ["weighted", "type", "a", "b", "name", "x y", "k\u00fc", "class",
+         "1", "0", "-1", "1.5", "1e3", "01", "true", "null", "", " ", "K" * 2000, "\u00e9\n\"\\", "\u0000", "\U0001f600", "a.b"]
 RKEYS = {"weight": "w", "time": "t", "layer": "l"}
+LONG = "long \u00e4" * 400
 VALS = [False, True, "Hypergraph", "DirectedHypergraph", "TemporalHypergraph", "MultiplexHypergraph",
-        0, 1, -3, 2.5, "s", "", None, [1, 2, [3]], {"p": 1, "q": [1, {"r": None}]}, [], {}, "ünï", 7, "heavy",
-        [{"a": []}], 1e-3, 123456789012, "a b"]
-VKEY = {json.dumps(v, sort_keys=True): i for i, v in enumerate(VALS)}
+        0, 1, -3, 2.5, "s", "", None, [1, 2, [3]], {"p": 1, "q": [1, {"r": None}]}, [], {}, "\u00fcn\u00ef", 7, "heavy",
+        [{"a": []}], 1e-3, 123456789012, "a b",
+        # magnitude / numeric type
+        2 ** 53 + 1, 2 ** 63, -(2 ** 64) - 1, 10 ** 30 + 7, 0.1, 1e300, 5e-324, -0.0, 0.0, 1.0, 3.0, 1e16, 1 / 3,
+        [2 ** 53 + 1, 1.0, {"k": 2 ** 64, "f": 0.1, "t": True}], {"1": 1, "01": "x", "-1": [1.0, 1], "": ""},
+        [[[[[[1.5]]]]]], {"weight": 2 ** 53 + 1, "time": 1.0},
+        # strings
+        LONG, "\u00e9\u0000\n\t\"\\/\u2028 \U0001f600 \x7f", "\\u0041", "1", "1.0", "true", "null", "NaN", "[1]", " "]
+
+
+def _first(kv):
+    return kv[0]
+
+
+def norm(v):
+    """canonical form that keeps apart what JSON text / pickle keep apart: bool / int / float (by repr: -0.0),
+    str, None, dict keys by type; tuples and lists are the same (json returns lists)"""
+    if v is None or isinstance(v, (bool, str)):
+        return (type(v).__name__, v)
+    if isinstance(v, int):
+        return ("int", v)
+    if isinstance(v, float):
+        return ("float", repr(v))
+    if isinstance(v, (list, tuple)):
+        return ("list", tuple(norm(x) for x in v))
+    if isinstance(v, dict):
+        if all(type(k) is str for k in v):
+            return ("dict", tuple([(k, norm(x)) for k, x in sorted(v.items(), key=_first)]))
+        return ("dict?", tuple(sorted(((norm(k), norm(x)) for k, x in v.items()), key=repr)))
+    if isinstance(v, (set, frozenset)):
+        return ("set", tuple(sorted((norm(x) for x in v), key=repr)))
+    return ("other", type(v).__name__, repr(v))
+
+
+VKEY = {norm(v): i for i, v in enumerate(VALS)}
+assert len(VKEY) == len(VALS)
+
+BIG_INTS = [2 ** 53 + 1, 2 ** 53 - 1, 2 ** 53, 2 ** 63, 2 ** 63 - 1, 2 ** 64 + 3, -(2 ** 53 + 1), -(2 ** 63) - 1,
+            10 ** 18 + 1, 10 ** 30 + 7]
+ODD_FLOATS = [0.1, 1 / 3, 2.7, -0.3, 1e-7, 1e300, 5e-324, 1.0000000000000002, 2.0 ** 53, 2.0 ** 70, 1e16, 123456.789,
+              -1e-300, 0.30000000000000004, 9007199254740994.0]
+QUARTERS = [1, 2, 3, 0.25, 0.5, 1.75, 2.5, 6, -1, 0, 1.0, 2.0, 3.0, 6.0, 0.0, -1.0]
+STR_LABELS = ["a", "b", "ab", "B", "c1", "c10", "c2", "d", "e e", "\u00e9", "z", "10", "9",
+              "", " ", "0", "1", "01", "-1", "1.0", "\u00fc\n", "a\"b", "back\\slash", "\u0000", "\U0001f600", "x" * 3000,
+              "True", "None", "null"]
+INT_LABELS = list(range(0, 30)) + [-1, -7, 2 ** 53 + 1, 2 ** 53, 2 ** 63, 2 ** 64 + 1, 10 ** 25]
+STR_LAYERS = ["L0", "L1", "social", "z", "", "0", "1", "\u00e9 \u00fc", "l\"q\\", "\U0001f600"]
+INT_LAYERS = [0, 1, 2, 3, 4, -1, 2 ** 53 + 1, 2 ** 64]
+TIMES = [0, 1, 2, 5, 40, 0, 1, 2, 2 ** 53 + 1, 2 ** 63, 10 ** 20]
+OPAQUE = 2 ** 1100      # codes of float weights that are no multiples of 1/4 (above 4 * any finite float)
 
 
 class Timeout(Exception):
@@ -80,70 +151,113 @@ def gen_meta(rng, p_empty=0.45, reserved=True):
         r = rng.random()
         if reserved and r < 0.18:
             k = rng.choice(list(RKEYS))
+        elif r < 0.6:
+            k = rng.choice(UKEYS[2:8])
         else:
             k = rng.choice(UKEYS[2:])
-        m[k] = copy.deepcopy(rng.choice(VALS))
+        m[k] = copy.deepcopy(rng.choice(VALS[:24]) if rng.random() < 0.45 else rng.choice(VALS))
     return m
+
+
+def gen_weight(rng, reg):
+    """one weight of the object's stream: 'q' small multiples of 1/4 (int and equal-valued float twins),
+    'big' integers beyond the float mantissa / machine words, 'flt' floats off the 1/4 grid (and a few ints)"""
+    if reg == "q":
+        return rng.choice(QUARTERS)
+    if reg == "big":
+        r = rng.random()
+        if r < 0.5:
+            return rng.choice(BIG_INTS)
+        if r < 0.75:
+            v = rng.getrandbits(rng.randint(54, 130)) | 1
+            return -v if rng.random() < 0.3 else v
+        return rng.choice([1, 2, 3, 0, -1, 7])
+    r = rng.random()
+    if r < 0.55:
+        return rng.choice(ODD_FLOATS)
+    if r < 0.8:
+        return rng.uniform(-1, 1) * 10.0 ** rng.randint(-8, 20)
+    if r < 0.9:
+        return rng.choice(BIG_INTS)
+    return rng.choice([1, 3, 1.0, 0.5])
 
 
 def gen_case(rng, T=None):
     T = T or rng.choice(TYPES)
     weighted = rng.random() < 0.5
+    wreg = rng.choice(["q", "q", "big", "flt"]) if weighted else None
     n = rng.randint(2, 9)
-    if rng.random() < 0.4:
-        labels = sorted(rng.sample(["a", "b", "ab", "B", "c1", "c10", "c2", "d", "e e", "é", "z", "10", "9"], n))
+    r = rng.random()
+    if r < 0.2:
+        pool = STR_LABELS[:13]
+    elif r < 0.4:
+        pool = STR_LABELS
+    elif r < 0.8:
+        pool = INT_LABELS[:30]
     else:
-        labels = sorted(rng.sample(range(0, 30), n))
-    layers = rng.sample(["L0", "L1", "social", "z"], 3) if rng.random() < 0.7 else rng.sample(range(5), 3)
+        pool = INT_LABELS
+    both = rng.sample(pool, n + 2)
+    labels, xlabels = sorted(both[:n]), both[n:]                # xlabels: nodes that only the later history names
+    r = rng.random()
+    layers = rng.sample(STR_LAYERS[:4], 3) if r < 0.4 else rng.sample(STR_LAYERS, 3) if r < 0.7 else \
+        rng.sample(INT_LAYERS[:5], 3) if r < 0.85 else rng.sample(INT_LAYERS, 3)
     ops = []
 
     def wt():
-        return rng.choice([1, 2, 3, 0.25, 0.5, 1.75, 2.5, 6, -1, 0]) if weighted else None
+        if weighted:
+            return gen_weight(rng, wreg)
+        r = rng.random()
+        return None if r < 0.85 else 1 if r < 0.93 else 1.0      # the only weights an unweighted object accepts
 
-    def nodeset(lo=1):
-        return tuple(rng.sample(labels, rng.randint(lo, min(4, n))))
+    def nodeset(lo=1, names=None):
+        names = names or labels
+        return tuple(rng.sample(names, rng.randint(lo, min(4, len(names)))))
 
-    def key():
+    def key(names=None):
         if T == "H":
-            return (nodeset(),)
+            return (nodeset(1, names),)
         if T == "D":
-            s = nodeset(2)
+            s = nodeset(2, names)
             k = rng.randint(1, len(s) - 1)
             return ((s[:k], s[k:]),)
         if T == "T":
-            return (nodeset(), rng.choice([0, 1, 2, 5, 40]))
-        return (nodeset(), rng.choice(layers))
+            return (nodeset(1, names), rng.choice(TIMES))
+        return (nodeset(1, names), rng.choice(layers))
 
     keys = []
-    for _ in range(rng.randint(0, 3)):
-        ops.append(("node", rng.choice(labels), gen_meta(rng, 0.3, reserved=False) if rng.random() < 0.8 else None))
-    for _ in range(rng.randint(0, 8)):
-        r = rng.random()
-        if r < 0.55 or not keys:
+
+    def gen_op(r, late=False):
+        """one history step; late=True: steps applied to a loaded object (may name the extra nodes)"""
+        names = labels + xlabels if late else labels
+        if r < 0.55 or (not keys and not 0.55 <= r < 0.62):
             if keys and T in "TM" and rng.random() < 0.45:
                 k = (rng.choice(keys)[0], key()[1])           # same node set at another time / layer
-            elif keys and rng.random() < 0.15:
+            elif keys and rng.random() < (0.4 if late else 0.15):
                 k = rng.choice(keys)                           # re-insertion
                 if rng.random() < 0.5:
                     k = (tuple(reversed(k[0])),) + k[1:] if T != "D" else k
             else:
-                k = key()
+                k = key(names)
             keys.append(k)
-            ops.append(("edge", k, wt(), gen_meta(rng) if rng.random() < 0.8 else None))
-        elif r < 0.62:
-            ops.append(("node", rng.choice(labels), gen_meta(rng, 0.3, reserved=False) if rng.random() < 0.8 else None))
-        elif r < 0.70:
-            ops.append(("rmedge", rng.choice(keys)))
-        elif r < 0.76:
-            ops.append(("rmnode", rng.choice(labels), rng.random() < 0.3))
-        elif r < 0.82:
-            ops.append(("nmeta", rng.choice(labels), gen_meta(rng, 0.2, reserved=False)))
-        elif r < 0.90:
-            ops.append(("emeta", rng.choice(keys), gen_meta(rng, 0.2)))
-        elif r < 0.95:
-            ops.append(("setw", rng.choice(keys), wt() if weighted else 1))
-        else:
-            ops.append(("eattr", rng.choice(keys), rng.choice(UKEYS[2:] + list(RKEYS)), copy.deepcopy(rng.choice(VALS))))
+            return ("edge", k, wt(), gen_meta(rng, reserved=not late) if rng.random() < 0.8 else None)
+        if r < 0.62:
+            return ("node", rng.choice(names), gen_meta(rng, 0.3, reserved=False) if rng.random() < 0.8 else None)
+        if r < 0.70:
+            return ("rmedge", rng.choice(keys))
+        if r < 0.76:
+            return ("rmnode", rng.choice(labels), rng.random() < 0.3)
+        if r < 0.82:
+            return ("nmeta", rng.choice(labels), gen_meta(rng, 0.2, reserved=False))
+        if r < 0.90:
+            return ("emeta", rng.choice(keys), gen_meta(rng, 0.2))
+        if r < 0.95:
+            return ("setw", rng.choice(keys), wt() if weighted else 1)
+        return ("eattr", rng.choice(keys), rng.choice(UKEYS[2:] + list(RKEYS)), copy.deepcopy(rng.choice(VALS)))
+
+    for _ in range(rng.randint(0, 3)):
+        ops.append(gen_op(0.6))
+    for _ in range(rng.randint(0, 8)):
+        ops.append(gen_op(rng.random()))
     r = rng.random()
     if r < 0.25:
         ops.append(("hset", gen_meta(rng, 0.0)))               # replaced: no weighted/type keys (or stale ones)
@@ -159,10 +273,18 @@ def gen_case(rng, T=None):
             k = key()
             if all(canon_key(T, k) != canon_key(T, q) for q in ks):
                 ks.append(k)
+        keys.extend(ks)
         ops.append(("bulkw", ks, [rng.choice([2, 0.5, 3]) for _ in ks]))   # add_edges(weights=...) flips the flag
     if rng.random() < 0.3:
         ops.append(("node", rng.choice(labels), gen_meta(rng, 0.3, reserved=False)))
-    return {"T": T, "weighted": weighted, "labels": labels, "layers": list(layers), "ops": ops}
+    case = {"T": T, "weighted": weighted, "wreg": wreg, "labels": labels, "xlabels": xlabels, "layers": list(layers),
+            "ops": ops}
+    if rng.random() < 0.75:
+        # the further history of the LOADED object: first add-only steps (also replayed in the model), then anything
+        case["post_a"] = [gen_op(rng.choice([0.1, 0.1, 0.6]), late=True) for _ in range(rng.randint(1, 3))]
+        case["post_b"] = [gen_op(rng.random(), late=True) for _ in range(rng.randint(0, 3))]
+        case["fmt2"] = {"json": rng.choice(["json", "hgx"]), "hgx": rng.choice(["json", "hgx"])}
+    return case
 
 
 def canon_key(T, k):
@@ -182,8 +304,13 @@ def build(case):
     T = case["T"]
     cls = {"H": hx.Hypergraph, "D": hx.DirectedHypergraph, "T": hx.TemporalHypergraph, "M": hx.MultiplexHypergraph}[T]
     h = cls(weighted=case["weighted"])
-    failed = 0
-    for op in case["ops"]:
+    return h, len(apply_ops(h, T, case["ops"]))
+
+
+def apply_ops(h, T, ops):
+    """apply history steps through the public API; returns the (index, exception type) of the rejected ones"""
+    failed = []
+    for i, op in enumerate(ops):
         op = list(op)
         kind = op[0]
         try:
@@ -244,9 +371,9 @@ def build(case):
                             h.add_edges([k[0] for k in ks], weights=list(op[2]))
                         else:
                             h.add_edges([k[0] for k in ks], [k[1] for k in ks], weights=list(op[2]))
-        except Exception:
-            failed += 1
-    return h, failed
+        except Exception as e:  # noqa: BLE001 - a rejected step is an observation
+            failed.append((i, type(e).__name__))
+    return failed
 
 
 # ------------------------------------------------------------------------------------------
@@ -272,8 +399,47 @@ def digest(h, T):
             k = (tuple(e[0]), e[1])
             w, m = h.get_weight(e[0], e[1]), h.get_edge_metadata(e[0], e[1])
         edges.append((k, w, copy.deepcopy(m)))
-    return {"type": type(h).__name__, "weighted": h.is_weighted(), "hmeta": copy.deepcopy(h.get_hypergraph_metadata()),
-            "nodes": nodes, "edges": edges}
+    d = {"type": type(h).__name__, "weighted": h.is_weighted(), "hmeta": copy.deepcopy(h.get_hypergraph_metadata()),
+         "nodes": nodes, "edges": edges}
+    if T == "M":
+        d["layers"] = sorted(map(repr, h.get_existing_layers()))     # the layer registry (compared for .hgx only)
+    return d
+
+
+def members_of(k, T):
+    return list(k[0]) + list(k[1]) if T == "D" else list(k[0] if T in "TM" else k)
+
+
+def incidence(h, T, d):
+    """{node: sorted incident hyperedges (as digest keys)} through get_incident_edges, node by node"""
+    out = {}
+    for n, _ in d["nodes"]:
+        try:
+            es = h.get_incident_edges(n)
+            ks = []
+            for e in es:
+                if T == "H":
+                    ks.append(tuple(e))
+                elif T == "D":
+                    ks.append((tuple(e[0]), tuple(e[1])))
+                elif T == "T":
+                    ks.append((tuple(e[1]), e[0]))
+                else:
+                    ks.append((tuple(e[0]), e[1]))
+            out[repr(n)] = sorted(map(repr, ks))
+        except Exception as e:  # noqa: BLE001
+            out[repr(n)] = "exc " + type(e).__name__ + ": " + str(e)[:80]
+    return out
+
+
+def incidence_expected(d, T):
+    """the same listing by definition: the hyperedges of get_edges() that contain the node"""
+    out = {repr(n): [] for n, _ in d["nodes"]}
+    for k, _, _ in d["edges"]:
+        for x in members_of(k, T):
+            if repr(x) in out:
+                out[repr(x)].append(repr(k))
+    return {n: sorted(v) for n, v in out.items()}
 
 
 def strip_reserved(m):
@@ -281,12 +447,19 @@ def strip_reserved(m):
 
 
 def jeq(a, b):
-    """equality of JSON values that keeps bool/int/float apart only where JSON does (True vs 1)"""
-    return json.dumps(a, sort_keys=True) == json.dumps(b, sort_keys=True)
+    """equality that keeps apart what JSON keeps apart (True / 1 / 1.0, -0.0 / 0.0, key "1" / key 1)"""
+    return norm(a) == norm(b)
 
 
-def same_weight(a, b):
-    return isinstance(a, (int, float)) and isinstance(b, (int, float)) and not isinstance(a, bool) and a == b
+def is_num(a):
+    return isinstance(a, (int, float)) and not isinstance(a, bool)
+
+
+def same_weight(a, b, weighted=True):
+    """equal value (Python compares int and float exactly) and, for weighted objects, equal numeric type"""
+    if not (is_num(a) and is_num(b) and a == b):
+        return False
+    return type(a) is type(b) or not weighted
 
 
 def compare_digests(d0, d1, what):
@@ -298,32 +471,33 @@ def compare_digests(d0, d1, what):
     if d0["weighted"] != d1["weighted"]:
         out.append(f"{what}: is_weighted() {d1['weighted']} != saved {d0['weighted']}")
     if not jeq(d0["hmeta"], d1["hmeta"]):
-        out.append(f"{what}: hypergraph metadata {d1['hmeta']!r} != saved {d0['hmeta']!r}")
+        out.append(f"{what}: hypergraph metadata {d1['hmeta']!r} != saved {d0['hmeta']!r}"[:600])
     n0 = {repr(n): m for n, m in d0["nodes"]}
     n1 = {repr(n): m for n, m in d1["nodes"]}
     if len(n1) != len(d1["nodes"]):
         out.append(f"{what}: a node is listed twice")
     if sorted(n0) != sorted(n1):
-        out.append(f"{what}: nodes {sorted(n1)} != saved {sorted(n0)}")
+        out.append(f"{what}: nodes {sorted(n1)} != saved {sorted(n0)}"[:600])
     else:
         for n in n0:
             if not jeq(n0[n], n1[n]):
-                out.append(f"{what}: metadata of node {n}: {n1[n]!r} != saved {n0[n]!r}")
+                out.append(f"{what}: metadata of node {n[:60]}: {n1[n]!r} != saved {n0[n]!r}"[:600])
                 break
     e0 = {repr(k): (w, m) for k, w, m in d0["edges"]}
     e1 = {repr(k): (w, m) for k, w, m in d1["edges"]}
     if len(e1) != len(d1["edges"]):
         out.append(f"{what}: a hyperedge is listed twice")
     if sorted(e0) != sorted(e1):
-        out.append(f"{what}: hyperedges {sorted(e1)} != saved {sorted(e0)}")
+        out.append(f"{what}: hyperedges {sorted(e1)} != saved {sorted(e0)}"[:600])
     else:
         for k in e0:
-            if not same_weight(e0[k][0], e1[k][0]):
-                out.append(f"{what}: weight of {k}: {e1[k][0]!r} != saved {e0[k][0]!r}")
+            if not same_weight(e0[k][0], e1[k][0], d0["weighted"] is True):
+                out.append(f"{what}: weight of {k}: {e1[k][0]!r} ({type(e1[k][0]).__name__}) != saved {e0[k][0]!r} "
+                           f"({type(e0[k][0]).__name__})"[:300])
                 break
         for k in e0:
             if not jeq(strip_reserved(e0[k][1]), strip_reserved(e1[k][1])):
-                out.append(f"{what}: metadata of {k} (reserved keys erased): {e1[k][1]!r} != saved {e0[k][1]!r}")
+                out.append(f"{what}: metadata of {k[:80]} (reserved keys erased): {e1[k][1]!r} != saved {e0[k][1]!r}"[:600])
                 break
     return out
 
@@ -332,8 +506,7 @@ def wf_digest(d, T):
     """container invariants the property's objects satisfy (checked, not assumed)"""
     names = {repr(n) for n, _ in d["nodes"]}
     for k, w, m in d["edges"]:
-        members = list(k[0]) + list(k[1]) if T == "D" else list(k[0] if T in "TM" else k)
-        if any(repr(x) not in names for x in members):
+        if any(repr(x) not in names for x in members_of(k, T)):
             return False
         if not isinstance(m, dict):
             return False
@@ -355,7 +528,7 @@ class Enc:
         return self.lrank.get(repr(x), 900)
 
     def val(self, v):
-        i = VKEY.get(json.dumps(v, sort_keys=True)) if _jsonable(v) else None
+        i = VKEY.get(norm(v))
         return "p" + str(999 if i is None else i)
 
     def meta(self, m, T=None, weighted=False, typed=False):
@@ -367,8 +540,7 @@ class Enc:
             if k in RKEYS:
                 kk = RKEYS[k]
                 if typed and k == "weight" and weighted:
-                    q = v * 4 if isinstance(v, (int, float)) and not isinstance(v, bool) else None
-                    vv = "q" + str(int(q)) if q is not None and q == int(q) else "p997"
+                    vv = "q" + wcode(v) if wcode(v) != "bad" else "p997"
                 elif typed and k == "time" and T == "T":
                     vv = "t" + str(v) if isinstance(v, int) and not isinstance(v, bool) and v >= 0 else "p997"
                 elif typed and k == "layer" and T == "M":
@@ -395,16 +567,22 @@ class Enc:
         return self.nodes(k[0]), str(self.layer(k[1]))
 
     def weight(self, w):
-        q = w * 4
-        return str(int(q)) if q == int(q) else "bad"
+        return wcode(w)
 
 
-def _jsonable(v):
-    try:
-        json.dumps(v)
-        return True
-    except Exception:
-        return False
+def wcode(w):
+    """a weight as the model's integer: exactly 4*w (ints of any size, floats on the 1/4 grid); other finite floats
+    get an injective code above every 4*float (the model stores / compares them, it never adds them up)"""
+    if not is_num(w):
+        return "bad"
+    if isinstance(w, int):
+        return str(4 * w)
+    if w != w or w in (float("inf"), float("-inf")):
+        return "bad"
+    q = Fraction(w) * 4
+    if q.denominator == 1:
+        return str(q.numerator)
+    return str(OPAQUE + struct.unpack(">Q", struct.pack(">d", w))[0])
 
 
 def canon_meta_str(s):
@@ -511,8 +689,183 @@ def is_nontrivial(d, T):
     return iso and len(d["edges"]) >= 2 and bool(md)
 
 
-def check_object(ctx, drv, case, tmp):
+def save_load(ctx, drv, case, enc, h, T, fmt, tmp, stage):
+    """one save -> load of the live object h with every oracle of the property; returns (loaded object or None, whether
+    the driver now holds the model's loaded content).
+    With a driver: the model's save / load / populate∘expose on the digest of h against the file and the result;
+    afterwards the driver's current content is the model's loaded content."""
     from hypergraphx.readwrite import load_hypergraph, save_hypergraph
+    vc = {**case, "format": fmt, "stage": stage}
+    path = os.path.join(tmp, f"c{1 if stage == 'first' else 2}.{fmt}")
+    # a file of an earlier case usually exists at this path: saving overwrites it
+    r = guarded(digest, h, T)
+    if r[0] != "ok":
+        ctx.violation(vc, f"{stage}: public queries fail on the object: {r[1]}")
+        return None, False
+    d0 = r[1]                     # the state just before this save
+    if not wf_digest(d0, T):
+        ctx.count("skipped_not_wellformed")
+        return None, False
+    inc0 = incidence(h, T, d0)
+    model_records = None
+    if drv is not None:
+        lines = content_cmds(enc, d0, T) + ["wf", "digest", "save"]
+        ans = drv.batch(lines)
+        n = len(lines)
+        if ans[n - 3] != "1":
+            ctx.disagree(vc, f"{stage}: the model's well-formedness predicate (hypothesis of the round-trip theorems) is "
+                             f"false on the digest of a real object: {ans[n-3]}")
+        if parse_driver_digest(ans[n - 2]) != digest_lines(enc, d0, T):
+            ctx.disagree(vc, f"{stage}: driver echo of the content differs: {ans[n-2][:300]!r} vs {digest_lines(enc, d0, T)!r}"[:900])
+        model_records = canon_records(ans[n - 1])
+    r = guarded(save_hypergraph, h, path, binary=(fmt == "hgx"))
+    if r[0] != "ok":
+        ctx.violation(vc, f"{stage}: save_hypergraph(.{fmt}) raised {r[1]}")
+        return None, False
+    r = guarded(digest, h, T)
+    if r[0] != "ok":
+        ctx.violation(vc, f"{stage}: public queries fail on the object after saving: {r[1]}")
+        return None, False
+    d_after = r[1]
+    if not jeq(d0, d_after):
+        diffs = [f"{k}: {d_after[k]!r} != before {d0[k]!r}" for k in d0 if not jeq(d0[k], d_after.get(k))]
+        ctx.violation(vc, f"{stage}: save_hypergraph(.{fmt}) modified the saved object: " + "; ".join(diffs)[:400])
+        # continue with the round trip against the state BEFORE saving
+    elif incidence(h, T, d_after) != inc0:
+        ctx.violation(vc, f"{stage}: save_hypergraph(.{fmt}) changed the incident-edge listings of the saved object")
+    r = guarded(load_hypergraph, path)
+    if r[0] != "ok":
+        ctx.violation(vc, f"{stage}: load_hypergraph(.{fmt}) raised {r[1]}")
+        return None, False
+    g = r[1]
+    if g is None:
+        ctx.violation(vc, f"{stage}: load_hypergraph(.{fmt}) returned None")
+        return None, False
+    r = guarded(digest, g, T)
+    if r[0] != "ok":
+        ctx.violation(vc, f"{stage}: public queries fail on the loaded object / wrong type {type(g).__name__}: {r[1]}")
+        return None, False
+    d1 = r[1]
+    diffs = compare_digests(d0, d1, f"{stage}: .{fmt} round trip")
+    for what in diffs[:2]:
+        ctx.violation(vc, what)
+    if diffs:
+        return None, False
+    if fmt == "hgx" and not jeq(d0, d1):
+        # binary: a field-by-field copy - also the reserved keys, the listing order and the layer registry are identical
+        ctx.violation(vc, f"{stage}: .hgx round trip: digest (with listing order / layer registry) differs")
+        return None, False
+    if inc0 == incidence_expected(d0, T):
+        inc1 = incidence(g, T, d1)
+        if inc1 != inc0:
+            bad = [n for n in inc0 if inc1.get(n) != inc0[n]][:1]
+            ctx.violation(vc, f"{stage}: .{fmt} round trip: get_incident_edges({bad[0][:60]}) of the loaded object = "
+                              f"{inc1.get(bad[0])!r}, saved object {inc0[bad[0]]!r}"[:700])
+            return None, False
+    else:
+        ctx.count("incidence_of_original_inconsistent")
+    if drv is not None and model_records is not None:
+        if fmt == "json":
+            try:
+                data = json.load(open(path))
+            except Exception as e:
+                ctx.violation(vc, f"{stage}: the saved file is not JSON: {e}")
+                return None, False
+            r = guarded(file_records, enc, data, T)
+            recs = r[1] if r[0] == "ok" else None
+            if recs is None or recs != model_records:
+                ctx.disagree(vc, f"{stage}: file records {recs!r} != model save {model_records!r}"[:1500])
+                return g, False
+            ans = drv.batch(["load", "digest"])
+            if ans[0] != "ok":
+                ctx.disagree(vc, f"{stage}: model load of its own save answers {ans[0]}")
+                return g, False
+            if parse_driver_digest(ans[1]) != digest_lines(enc, d1, T, typed=True):
+                ctx.disagree(vc, f"{stage}: model load(save c) = {parse_driver_digest(ans[1])!r}, implementation loaded "
+                                 f"{digest_lines(enc, d1, T, typed=True)!r}"[:1500])
+                return g, False
+        else:
+            ans = drv.batch(["hgx", "digest"])
+            if ans[0] != "ok" or parse_driver_digest(ans[1]) != digest_lines(enc, d1, T):
+                ctx.disagree(vc, f"{stage}: model loadPickle(expose c) = {ans[0]} {parse_driver_digest(ans[1])!r}, implementation "
+                                 f"loaded {digest_lines(enc, d1, T)!r}"[:1500])
+                return g, False
+        return g, True
+    return g, False
+
+
+def api_lines(enc, T, ops):
+    lines = []
+    for op in ops:
+        if op[0] == "node":
+            lines.append(f"api_node {enc.node(op[1])} {'none' if op[2] is None else enc.meta(op[2])}")
+        elif op[0] == "hset":
+            lines.append("api_sethmeta " + enc.meta(op[1]))
+        else:
+            k = tup(op[1])
+            if T == "D":
+                it, ex = enc.nodes(k[0][0]) + ">" + enc.nodes(k[0][1]), "-"
+            elif T == "H":
+                it, ex = enc.nodes(k[0]), "-"
+            elif T == "T":
+                it, ex = enc.nodes(k[0]), str(k[1])
+            else:
+                it, ex = enc.nodes(k[0]), str(enc.layer(k[1]))
+            w = "none" if op[2] is None else enc.weight(op[2])
+            lines.append(f"api_edge {it} {ex} {w} {'none' if op[3] is None else enc.meta(op[3])}")
+    return lines
+
+
+def compare_live(ctx, vc, twin, g, T, fmt, what):
+    """the original (twin) and the loaded object after the same further history: equal digests (the text format modulo
+    the reserved keys it left in the metadata, the binary format exactly) and equal incidence listings"""
+    r0, r1 = guarded(digest, twin, T), guarded(digest, g, T)
+    if r0[0] != "ok":
+        ctx.count("twin_queries_fail")
+        return None
+    if r1[0] != "ok":
+        ctx.violation(vc, f"{what}: public queries fail on the loaded object: {r1[1]}")
+        return None
+    d0, d1 = r0[1], r1[1]
+    if not wf_digest(d0, T):
+        ctx.count("skipped_not_wellformed")
+        return None
+    diffs = compare_digests(d0, d1, what)
+    if not diffs and fmt == "hgx" and not jeq(d0, d1):
+        diffs = [f"{what}: digests (with listing order) differ: loaded {d1!r}, original {d0!r}"[:700]]
+    for x in diffs[:2]:
+        ctx.violation(vc, x)
+    if diffs:
+        return None
+    inc0 = incidence(twin, T, d0)
+    if inc0 == incidence_expected(d0, T):
+        inc1 = incidence(g, T, d1)
+        if inc1 != inc0:
+            bad = [n for n in inc0 if inc1.get(n) != inc0[n]][:1]
+            ctx.violation(vc, f"{what}: get_incident_edges({bad[0][:60]}) of the loaded object = {inc1.get(bad[0])!r}, "
+                              f"original {inc0[bad[0]]!r}"[:700])
+            return None
+    else:
+        ctx.count("incidence_of_original_inconsistent")
+    return d1
+
+
+def model_exact(case):
+    """histories whose weights the model adds up exactly: every float on the 1/4 grid and small, and no integer beyond
+    2**40 next to a float"""
+    ws = []
+    for op in list(case["ops"]) + list(case.get("post_a", [])):
+        if op[0] in ("edge", "setw"):
+            ws.append(op[2])
+        elif op[0] == "bulkw":
+            ws += list(op[2])
+    flts = [w for w in ws if isinstance(w, float)]
+    if any(abs(w) > 2 ** 40 or (Fraction(w) * 4).denominator != 1 for w in flts):
+        return False
+    return not (flts and any(isinstance(w, int) and abs(w) > 2 ** 40 for w in ws))
+
+
+def check_object(ctx, drv, case, tmp):
     T = case["T"]
     r = guarded(build, case)
     if r[0] != "ok":
@@ -528,89 +881,66 @@ def check_object(ctx, drv, case, tmp):
     if not wf_digest(d0, T):
         ctx.count("skipped_not_wellformed")
         return
-    enc = Enc(case["labels"], case["layers"])
-    key = ("obj", T, json.dumps(hgxv.jsonable(d0), sort_keys=True, default=repr))
+    enc = Enc(list(case["labels"]) + list(case.get("xlabels", [])), case["layers"])
+    key = ("obj", T, json.dumps(hgxv.jsonable(d0), sort_keys=True, default=repr), json.dumps(hgxv.jsonable(case.get("post_a", [])), default=repr))
     ctx.case(key, is_nontrivial(d0, T), sample=case)
     ctx.count("type_" + T)
     ctx.count("weighted" if d0["weighted"] else "unweighted")
+    if d0["weighted"]:
+        ctx.count("weights_" + str(case.get("wreg") or "q"))
+        if any(is_num(w) and abs(w) > 2 ** 53 for _, w, _ in d0["edges"]):
+            ctx.count("weight_beyond_2^53")
     if any(op[0] in ("rmedge", "rmnode") for op in case["ops"]):
         ctx.count("with_removals")
     if not (isinstance(d0["hmeta"], dict) and d0["hmeta"].get("weighted") == d0["weighted"]
             and d0["hmeta"].get("type") == TNAME[T]):
         ctx.count("hmeta_replaced_or_stale")
-    lines, expect = [], []
-    model_records = None
-    if drv is not None:
-        lines += content_cmds(enc, d0, T) + ["wf", "digest", "save"]
-        ans = drv.batch(lines)
-        n = len(lines)
-        if ans[n - 3] != "1":
-            ctx.disagree(case, f"the model's well-formedness predicate (hypothesis of the round-trip theorems) is false "
-                               f"on the digest of a real object: {ans[n-3]}")
-        if parse_driver_digest(ans[n - 2]) != digest_lines(enc, d0, T):
-            ctx.disagree(case, f"driver echo of the content differs: {ans[n-2]!r} vs {digest_lines(enc, d0, T)!r}")
-        model_records = canon_records(ans[n - 1])
+    exact = model_exact(case)
     for fmt in ("json", "hgx"):
-        path = os.path.join(tmp, f"c.{fmt}")
-        if os.path.exists(path):
-            os.remove(path)
-        r = guarded(digest, h, T)
+        g, mok = save_load(ctx, drv, case, enc, h, T, fmt, tmp, "first")
+        if g is None or "post_a" not in case or ctx.too_many():
+            continue
+        # the loaded object is a full object: the same further history on it and on a twin of the original
+        vc = {**case, "format": fmt, "stage": "history after load"}
+        r = guarded(build, case)
         if r[0] != "ok":
-            ctx.violation({**case, "format": fmt}, f"public queries fail on the object: {r[1]}")
             continue
-        d0 = r[1]                     # the state just before this save
-        r = guarded(save_hypergraph, h, path, binary=(fmt == "hgx"))
-        if r[0] != "ok":
-            ctx.violation({**case, "format": fmt}, f"save_hypergraph(.{fmt}) raised {r[1]}")
+        twin = r[1][0]
+        post_a = [tuple(op) for op in case["post_a"]]
+        post_b = [tuple(op) for op in case.get("post_b", [])]
+        r0, r1 = guarded(apply_ops, twin, T, post_a), guarded(apply_ops, g, T, post_a)
+        if r0[0] != "ok":
             continue
-        r = guarded(digest, h, T)
-        if r[0] != "ok":
-            ctx.violation({**case, "format": fmt}, f"public queries fail on the object after saving: {r[1]}")
+        f0, f1 = r0[1], r1[1]
+        if f0 != f1:
+            ctx.violation(vc, f"after load(.{fmt}): the steps {post_a!r} are rejected differently on the loaded object "
+                              f"({f1}) and on the original ({f0})"[:700])
             continue
-        d_after = r[1]
-        if not jeq(hgxv.jsonable(d0), hgxv.jsonable(d_after)):
-            diffs = [f"{k}: {d_after[k]!r} != before {d0[k]!r}" for k in d0 if not jeq(hgxv.jsonable(d0[k]), hgxv.jsonable(d_after[k]))]
-            ctx.violation({**case, "format": fmt}, f"save_hypergraph(.{fmt}) modified the saved object: " + "; ".join(diffs)[:400])
-            # continue with the round trip against the state BEFORE saving
-        r = guarded(load_hypergraph, path)
-        if r[0] != "ok":
-            ctx.violation({**case, "format": fmt}, f"load_hypergraph(.{fmt}) raised {r[1]}")
+        ctx.count("history_after_load")
+        dA = compare_live(ctx, vc, twin, g, T, fmt, f"after load(.{fmt}) and the steps {post_a!r}"[:500])
+        if dA is None:
             continue
-        g = r[1]
-        if g is None:
-            ctx.violation({**case, "format": fmt}, f"load_hypergraph(.{fmt}) returned None")
-            continue
-        r = guarded(digest, g, T)
-        if r[0] != "ok":
-            ctx.violation({**case, "format": fmt}, f"public queries fail on the loaded object / wrong type {type(g).__name__}: {r[1]}")
-            continue
-        d1 = r[1]
-        diffs = compare_digests(d0, d1, f".{fmt} round trip")
-        for what in diffs[:2]:
-            ctx.violation({**case, "format": fmt}, what)
-        if fmt == "hgx" and not diffs:
-            # binary: a field-by-field copy - also the reserved keys and listing order are identical
-            if not jeq(hgxv.jsonable(d0), hgxv.jsonable(d1)):
-                ctx.violation({**case, "format": fmt}, ".hgx round trip: digest (with listing order) differs")
-        if fmt == "json" and drv is not None and model_records is not None:
-            try:
-                data = json.load(open(path))
-            except Exception as e:
-                ctx.violation({**case, "format": fmt}, f"the saved file is not JSON: {e}")
+        if drv is not None and exact and mok:
+            ans = drv.batch(api_lines(enc, T, post_a) + ["digest"])
+            mine = digest_lines(enc, dA, T, typed=(fmt == "json"))
+            if parse_driver_digest(ans[-1]) != mine:
+                ctx.disagree(vc, f"model add_node/add_edge steps {post_a!r} on its loaded content give "
+                                 f"{parse_driver_digest(ans[-1])!r}, implementation {mine!r}"[:1500])
+        if post_b:
+            r0, r1 = guarded(apply_ops, twin, T, post_b), guarded(apply_ops, g, T, post_b)
+            if r0[0] != "ok":
                 continue
-            recs = file_records(enc, data, T)
-            if recs is None or recs != model_records:
-                ctx.disagree({**case, "format": fmt}, f"file records {recs!r} != model save {model_records!r}")
+            f0, f1 = r0[1], r1[1]
+            if f0 != f1:
+                ctx.violation(vc, f"after load(.{fmt}): the steps {post_a + post_b!r} are rejected differently on the loaded "
+                                  f"object ({f1}) and on the original ({f0})"[:700])
                 continue
-            ans = drv.batch(["load", "digest"])
-            if ans[0] != "ok":
-                ctx.disagree({**case, "format": fmt}, f"model load of its own save answers {ans[0]}")
+            if compare_live(ctx, vc, twin, g, T, fmt, f"after load(.{fmt}) and the steps {post_a + post_b!r}"[:500]) is None:
                 continue
-            if parse_driver_digest(ans[1]) != digest_lines(enc, d1, T, typed=True):
-                ctx.disagree({**case, "format": fmt}, f"model load(save c) = {parse_driver_digest(ans[1])!r}, implementation loaded "
-                                                      f"{digest_lines(enc, d1, T, typed=True)!r}")
+        # a loaded and further used object is saved and loaded again (same or other format)
+        save_load(ctx, drv, case, enc, g, T, case.get("fmt2", {}).get(fmt, fmt), tmp, "second (object loaded from ." + fmt + ", then used)")
     # add_node / add_edge semantics of the model on the add-only prefix of the history
-    if drv is not None:
+    if drv is not None and exact:
         check_api_prefix(ctx, drv, case, enc)
 
 
@@ -632,24 +962,7 @@ def check_api_prefix(ctx, drv, case, enc):
     if r[0] != "ok":
         return
     d = r[1]
-    lines = [f"api_new {T} {int(case['weighted'])}"]
-    for op in pre:
-        if op[0] == "node":
-            lines.append(f"api_node {enc.node(op[1])} {'none' if op[2] is None else enc.meta(op[2])}")
-        elif op[0] == "hset":
-            lines.append("api_sethmeta " + enc.meta(op[1]))
-        else:
-            k = tup(op[1])
-            if T == "D":
-                it, ex = enc.nodes(k[0][0]) + ">" + enc.nodes(k[0][1]), "-"
-            elif T == "H":
-                it, ex = enc.nodes(k[0]), "-"
-            elif T == "T":
-                it, ex = enc.nodes(k[0]), str(k[1])
-            else:
-                it, ex = enc.nodes(k[0]), str(enc.layer(k[1]))
-            w = "none" if op[2] is None else enc.weight(op[2])
-            lines.append(f"api_edge {it} {ex} {w} {'none' if op[3] is None else enc.meta(op[3])}")
+    lines = [f"api_new {T} {int(case['weighted'])}"] + api_lines(enc, T, pre)
     lines.append("digest")
     ans = drv.batch(lines)
     ctx.count("api_prefix_checked")
@@ -674,7 +987,7 @@ def gen_hgr(rng):
             e = list(rng.choice(sorted(seen, key=sorted)))
             rng.shuffle(e)
         seen.add(frozenset(e))
-        edges.append((rng.randint(1, 9), e))
+        edges.append((rng.randint(1, 9) if rng.random() < 0.85 else rng.choice([2 ** 53 + 1, 2 ** 63 + 1, 10 ** 20, 2 ** 31, 10]), e))
     mode = rng.choice([1, 11]) if weighted else rng.choice([None, 0, 10])
     nodew = mode in (10, 11) or rng.random() < 0.15
     out = []
@@ -758,9 +1071,20 @@ def check_hgr(ctx, drv, case, tmp):
 def gen_hif(rng):
     nn = rng.randint(1, 7)
     ne = rng.randint(1, 6)
-    strs = rng.random() < 0.5
-    nnames = rng.sample(["n%d" % i for i in range(12)] if strs else list(range(10, 40)), nn)
-    enames = rng.sample(["e%d" % i for i in range(12)] if strs else list(range(100, 140)), ne)
+    style = rng.choice(["str", "int", "uid", "numstr", "odd"])
+    if style == "str":
+        npool, epool = ["n%d" % i for i in range(12)], ["e%d" % i for i in range(12)]
+    elif style == "int":
+        npool, epool = list(range(10, 40)), list(range(100, 140))
+    elif style == "uid":            # names that look like the reader's own 0.. numbering, in another order
+        npool, epool = list(range(nn)), list(range(ne))
+    elif style == "numstr":
+        npool, epool = [str(i) for i in range(nn + 1)], [str(i) for i in range(ne + 1)]
+    else:
+        npool = ["", " ", "\u00e9", "a\"b", "\U0001f600", "x" * 300, "0", "n\n", "back\\", "None"][:max(nn, 7)] + ["p%d" % i for i in range(3)]
+        epool = [2 ** 53 + 1, 2 ** 64, -1, 0, 1, 10 ** 20, -(2 ** 63) - 1, 7, 8, 9]
+    nnames = rng.sample(npool, nn)
+    enames = rng.sample(epool, ne)
     inc = []
     sets = []
     for e in enames:
@@ -773,11 +1097,12 @@ def gen_hif(rng):
             s = rng.sample(nnames, rng.randint(1, min(4, nn)))
         sets.append(tuple(s))
         for x in s:
-            inc.append({"edge": e, "node": x, **({"weight": rng.choice([1, 2.5, "x"])} if rng.random() < 0.6 else {}),
+            inc.append({"edge": e, "node": x, **({"weight": rng.choice([1, 2.5, "x", 1.0, 2 ** 53 + 1, 0.1, 0])} if rng.random() < 0.6 else {}),
                         **({"attrs": {"role": rng.choice(["a", "b"])}} if rng.random() < 0.3 else {})})
     rng.shuffle(inc)
-    node_recs = [{"node": x, **({"weight": rng.randint(1, 5)} if rng.random() < 0.5 else {}),
-                  **({"attrs": {"name": str(x) * 2}} if rng.random() < 0.5 else {})}
+    node_recs = [{"node": x, **({"weight": rng.choice([1, 2, 3, 4, 5, 1.0, 10 ** 30 + 7, 1 / 3])} if rng.random() < 0.5 else {}),
+                  **({"attrs": {"name": str(x)[:20] * 2, **({rng.choice(UKEYS[8:]): copy.deepcopy(rng.choice(VALS))}
+                                                           if rng.random() < 0.3 else {})}} if rng.random() < 0.5 else {})}
                  for x in nnames if rng.random() < 0.85]
     edge_recs = [{"edge": e, **({"attrs": {"kind": rng.choice(["p", "q"])}} if rng.random() < 0.6 else {})}
                  for e in enames if rng.random() < 0.8]
@@ -790,7 +1115,7 @@ def gen_hif(rng):
     if r < 0.7:
         doc["type"] = rng.choice(["undirected", "asc"])
     if rng.random() < 0.5:
-        doc["metadata"] = {"name": "doc", "v": [1, 2]}
+        doc["metadata"] = {"name": "doc", "v": [1, 2], **({rng.choice(UKEYS[8:]): copy.deepcopy(rng.choice(VALS))} if rng.random() < 0.5 else {})}
     return {"doc": doc}
 
 
@@ -935,7 +1260,7 @@ def run(ctx):
     drv = ctx.driver() if ctx.model_available and not os.environ.get("C06_NODRV") else None
     tmp = tempfile.mkdtemp(prefix="hgxv_c06_")
     try:
-        n_obj = ctx.scale(2000, 50000)
+        n_obj = ctx.scale(1600, 40000)
         n_hgr = ctx.scale(700, 12000)
         n_hif = ctx.scale(700, 12000)
         plan = [("obj", n_obj), ("hgr", n_hgr), ("hif", n_hif)]
@@ -971,6 +1296,7 @@ def replay(ctx, case):
         else:
             case = dict(case)
             case.pop("format", None)
+            case.pop("stage", None)
             case["ops"] = [tuple(op) for op in case["ops"]]
             check_object(ctx, drv, case, tmp)
     finally:
